@@ -55,6 +55,7 @@ static const cfg_t cfgs[] = {
 typedef struct {
     int ms, kind, named, gen, inc;
     int cancel_req, grace, yields, being_joined, joiner;
+    int joining; /* 1 while this unit is inside ABT_thread_join(other unit) */
     int hknown;
     ABT_thread h;
     int keyset;
@@ -162,9 +163,11 @@ static void model_terminate(unit_t *u, int by_cancel)
         u->joiner = -1;
     }
     /* a unit cancelled while it was waiting in a join gives up the join */
-    if (by_cancel && U[1 - slot].joiner == slot) {
-        U[1 - slot].joiner = -1;
+    if (u->joining) {
+        u->joining = 0;
         U[1 - slot].being_joined = 0;
+        if (U[1 - slot].joiner == slot)
+            U[1 - slot].joiner = -1;
     }
     if (by_cancel)
         n_cancel_term++;
@@ -202,13 +205,13 @@ static void sample_all(const char *where)
         unit_t *u = &U[i];
         /* an unnamed READY unit with a pending cancel: its handle is dead;
          * the key destructor tells when the scheduler got rid of it */
-        if (u->ms == MS_READY && !u->named && u->cancel_req && u->keyset &&
-            dcount[i][u->gen] == 1)
+        if ((u->ms == MS_READY || u->ms == MS_WAITING) && !u->named &&
+            u->cancel_req && u->keyset && dcount[i][u->gen] == 1)
             model_terminate(u, 1);
         if (!can_sample(u))
             continue;
         st[i] = get_state(u);
-        if (u->ms == MS_READY && u->cancel_req &&
+        if ((u->ms == MS_READY || u->ms == MS_WAITING) && u->cancel_req &&
             st[i] == ABT_THREAD_STATE_TERMINATED)
             model_terminate(u, 1);
     }
@@ -277,9 +280,6 @@ static void slice_begin(unit_t *u, const char *where)
                     where, slot, u->gen);
         u->grace = 0;
     }
-    if (u->ms == MS_WAITING && U[1 - slot].joiner == slot &&
-        U[1 - slot].kind == K_TASK)
-        u->ms = MS_READY; /* join of a tasklet polls: the joiner keeps running */
     abtmc_check(u->ms == MS_READY, "slice_from_bad_state",
                 "%s: unit %d.%d runs while the model has it in state %d",
                 where, slot, u->gen, u->ms);
@@ -367,6 +367,7 @@ static void unit_body(void *arg, unit_fn_t self_fn)
     }
     for (;;) {
         int a = unit_choose(u);
+        abtmc_tracef("unit %d.%d inc %d action %d", slot, gen, inc, a);
         switch (a) {
             case A_RET:
                 u->fins[inc]++;
@@ -409,16 +410,21 @@ static void unit_body(void *arg, unit_fn_t self_fn)
                 o->being_joined = 1;
                 o->joiner = slot;
                 u->ms = MS_WAITING;
+                u->joining = 1;
                 OK(ABT_thread_join(o->h));
-                slice_begin(u, "after unit-side join");
-                o->being_joined = 0;
-                abtmc_check(o->ms == MS_TERM, "join_returned_early",
-                            "unit %d joined unit %d which the model has in "
-                            "state %d",
-                            slot, 1 - slot, o->ms);
+                u->joining = 0;
                 abtmc_check(get_state(o) == ABT_THREAD_STATE_TERMINATED,
                             "join_returned_early",
-                            "ABT_thread_join returned, target not TERMINATED");
+                            "ABT_thread_join returned to unit %d, target not "
+                            "TERMINATED", slot);
+                if (o->ms == MS_READY && o->cancel_req)
+                    model_terminate(o, 1);
+                abtmc_check(o->ms == MS_TERM, "join_returned_early",
+                            "unit %d joined unit %d which never finished or "
+                            "was cancelled (model state %d)",
+                            slot, 1 - slot, o->ms);
+                o->being_joined = 0;
+                slice_begin(u, "after unit-side join");
                 break;
             }
         }
@@ -670,6 +676,7 @@ static int enabled_ops(int *ops)
 
 static void apply(int op)
 {
+    abtmc_tracef("primary op %d", op);
     switch (op) {
         case P_CREATE0N: p_create(0, 1); break;
         case P_CREATE0U: p_create(0, 0); break;
